@@ -14,6 +14,7 @@ import (
 	"sync"
 	"time"
 
+	exserver "github.com/cybergarage/go-redis/examples/go-redisd/server"
 	"github.com/cybergarage/go-redis/redis"
 )
 
@@ -123,9 +124,13 @@ func (rn *runner) curConn() int {
 
 func (rn *runner) newServer(s Scenario, conns []*connRun) (*redis.Server, any) {
 	server := redis.NewServer()
+	if s.Handler == "example" {
+		server = exserver.NewServer().Server // the bundled example store registers itself as the handler
+	}
 	server.SetPort(0)
 	var handler any
 	switch s.Handler {
+	case "example":
 	case "", "rec":
 		h := &recHandler{rec: rn.rec, server: server, t0: func(c int) time.Time {
 			if c >= 0 && c < len(conns) {
@@ -275,6 +280,9 @@ func (rn *runner) run(s Scenario) bool {
 		conns[i] = &connRun{sc: newSconn(i, rn.rec), done: make(chan struct{}), sentAt: time.Now()}
 	}
 	server, _ := rn.newServer(s, conns)
+	if s.Handler == "" {
+		s.Handler = "rec"
+	}
 	rn.rec.Emit(Ev{"ev": "scenario", "requirepass": s.RequirePass != "", "pw": BS(symBytes[s.RequirePass]), "handler": s.Handler,
 		"tracer": s.Tracer, "nconns": n, "authdouble": s.AuthDouble, "customexec": s.CustomExec})
 	started := make([]bool, n)
